@@ -145,6 +145,15 @@ def generate(out_dir, seed, per_code):
                     rt = 0  # a null-shape record inside a typed file
                     homogeneous = False
                 m, with_m, f = g.record(rt, dens, pool)
+                if i % 25 == 7 and k == 0 and rt not in POINT and rt != 0 and m['parts']:
+                    # amounts beyond 1024 vertices in one part (caps, block sizes)
+                    big = 1025 + (i // 25) % 700
+                    has_m_val = m['parts'][-1] and m['parts'][-1][0][-1] is not None if m['parts'][-1] else with_m
+                    m['parts'][-1] = [g.vertex(rt, 0.0, 'mixed') for _ in range(big)]
+                    if not with_m:
+                        for v in m['parts'][-1]:
+                            v[-1] = None
+                    f = list(f) + ['part-beyond-1024-vertices']
                 feats.update(f)
                 numbering = i % 4
                 num = {0: k + 1, 1: 0, 2: -(k + 1), 3: 7}[numbering]
@@ -158,12 +167,18 @@ def generate(out_dir, seed, per_code):
             if i % 3 == 2:
                 trailing = bytes(r.getrandbits(8) for _ in range(r.choice([1, 2, 7, 8, 12, 40])))
                 feats.add('trailing-bytes')
+                if i % 6 == 2 and t != 0:
+                    # ... or a stale but perfectly well-formed record of the file's type (what an
+                    # in-place rewrite of a longer file leaves behind the declared end)
+                    stale, stale_m, _ = g.record(t, dens, pool)
+                    trailing = shpref.enc_record(nrec + 1, stale, stale_m)
+                    feats.add('trailing-wellformed-record')
             hdr_box = [g.coord(0.5, True, 'mixed') for _ in range(8)]
             buf = shpref.enc_header(declared // 2, t, hdr_box) + body + trailing
             name = 'c%02d_%04d' % (t, i)
             open(os.path.join(out_dir, name + '.shp'), 'wb').write(buf)
             typed = t if (homogeneous and t != 0) else -1
-            files.write(json.dumps({'file': name, 'shx': False, 'typed': typed}) + '\n')
+            files.write(json.dumps({'file': name, 'shx': False, 'typed': typed, 'n': len(recs)}) + '\n')
             models.write(json.dumps({'file': name, 'type': t, 'records': recs, 'features': sorted(feats), 'header_box': hdr_box,
                                      'typed': typed}) + '\n')
             count += 1
